@@ -28,7 +28,7 @@ SLIVERS = [1, 2, 5, 10, 11, 12, 50]
 def generate(tier, rng):
     cases = []
     n = 1500 if tier == "quick" else 50000
-    for _ in range(n):
+    while len(cases) < n:
         tmax = rng.choice([DEN // 4, DEN, 3 * DEN, 4000])
         g = iogen.rand_dtg(rng, tmax, sliver=SLIVERS if rng.random() < 0.8 else None)
         if rng.random() < 0.3:
@@ -38,9 +38,9 @@ def generate(tier, rng):
         mn = mx = None
         u = rng.random()
         if u < 0.15:
-            mn = rng.choice([0, 0, -DEN, 5, g["xmin"], tmax // 2])
+            mn = rng.choice([0, 0, -DEN, 5, g["xmin"], g["xmin"] + tmax // 2])
         if 0.1 < u < 0.3:
-            mx = rng.choice([g["xmax"], g["xmax"] + DEN, g["xmax"] - 1, tmax // 2])
+            mx = rng.choice([g["xmax"], g["xmax"] + DEN, g["xmax"] - 1, g["xmin"] + tmax // 2])
         times = sorted(set(x for t in g["tiers"] for e in t["entries"] for x in e[:-1]))
         if times and rng.random() < 0.12:
             # an override that cuts through the data (a point or an interval of any tier, blank filling on or off): the save must refuse
@@ -48,6 +48,9 @@ def generate(tier, rng):
                 mn, mx = rng.choice(times) + rng.choice([1, 1, 7]), None
             else:
                 mn, mx = None, rng.choice(times) - rng.choice([1, 1, 7])
+        lo, hi = (g["xmin"] if mn is None else mn), (g["xmax"] if mx is None else mx)
+        if lo >= hi:
+            continue           # a requested span that is empty or runs backwards: nothing is claimed about it
         cases.append({"op": "prep", "g": g, "blanks": blanks, "mn": mn, "mx": mx, "thr": rng.choice(THRS), "scale": ["dyadic", K]})
     return cases
 
